@@ -108,7 +108,6 @@ Definition rows_okP (n : nat) (cs : list col) : Prop :=
 
 Record wf_bucket (sh : list (list byte * Z)) (b : bucket) : Prop := {
   wb_shape : shape_of (snd b) = sh;
-  wb_rows : 0 < cs_len (snd b);
   wb_len : rows_okP (cs_len (snd b)) (snd b);
   wb_key : decode_key (fst b) = fst b
 }.
@@ -119,7 +118,7 @@ Record wf_shape (sh : list (list byte * Z)) : Prop := {
 }.
 
 (** the guard as a proposition: a non-empty list of buckets with distinct canonical keys, all of the
-    first bucket's shape (wire-supported types), each with at least one row and equal column lengths *)
+    first bucket's shape (wire-supported types), each with equal column lengths (ZERO rows allowed) *)
 Definition guardP (bs : list bucket) : Prop :=
   exists b0 rest, bs = b0 :: rest /\ NoDup (map fst bs)
                   /\ wf_shape (shape_of (snd b0)) /\ Forall (wf_bucket (shape_of (snd b0))) bs.
@@ -131,42 +130,93 @@ Proof.
   apply bytes_eqb_eq in H1. apply Z.eqb_eq in H2. rewrite (IH _ H3). congruence.
 Qed.
 
+Lemma shape_eqb_refl a : shape_eqb a a = true.
+Proof. induction a as [|[n t] a IH]; cbn; [reflexivity|]. rewrite bytes_eqb_refl, Z.eqb_refl, IH. reflexivity. Qed.
+
 Lemma rows_ok_spec n cs : rows_ok n cs = true -> rows_okP n cs.
 Proof.
   unfold rows_ok, rows_okP. rewrite forallb_forall. intros H. apply Forall_forall.
   intros c Hc. apply Nat.eqb_eq. auto.
 Qed.
 
+Lemma cs_wf_parts cs : cs_wf cs = true ->
+  cs <> [] /\ Forall (fun s => wire_supported (snd s) = true) (shape_of cs) /\ rows_okP (cs_len cs) cs.
+Proof.
+  unfold cs_wf. rewrite !andb_true_iff. intros [[[Hne _] Hsup] Hrows]. split; [|split].
+  - destruct cs; [discriminate|discriminate].
+  - rewrite forallb_forall in Hsup. unfold shape_of. apply Forall_map. apply Forall_forall. intros c Hc. cbn. auto.
+  - apply rows_ok_spec. exact Hrows.
+Qed.
+
 Lemma guard_spec bs : guard bs = true -> guardP bs.
 Proof.
   unfold guard, dom. destruct bs as [|b0 rest]; [discriminate|].
-  rewrite !andb_true_iff. intros [[[[[_ Hnd] Hwf] Hz] Hs] Hk].
+  rewrite !andb_true_iff. intros [[[[_ Hnd] Hwf] Hs] Hk].
   exists b0, rest. split; [reflexivity|]. split; [apply nodup_names_spec; exact Hnd|].
-  unfold no_zero_rows in Hz. unfold keys_canonical in Hk. unfold key_canonical in Hk.
-  rewrite forallb_forall in Hwf, Hz, Hk.
+  unfold keys_canonical in Hk. unfold key_canonical in Hk.
+  rewrite forallb_forall in Hwf, Hk.
   assert (Hb0 : cs_wf (snd b0) = true) by (apply Hwf; left; reflexivity).
   split.
-  - unfold cs_wf in Hb0. rewrite !andb_true_iff in Hb0. destruct Hb0 as [[[Hne _] Hsup] _].
-    constructor.
-    + destruct (snd b0); [discriminate|]. cbn. discriminate.
-    + rewrite forallb_forall in Hsup. unfold shape_of. apply Forall_map. apply Forall_forall.
-      intros c Hc. cbn. auto.
+  - destruct (cs_wf_parts _ Hb0) as (Hne & Hsup & _). constructor; [|exact Hsup].
+    destruct (snd b0); [contradiction|]. cbn. discriminate.
   - apply Forall_forall. intros b Hb.
     assert (Hsh : shape_of (snd b) = shape_of (snd b0)).
     { destruct Hb as [<-|Hb]; [reflexivity|]. cbn in Hs. rewrite forallb_forall in Hs.
       apply shape_eqb_eq. auto. }
-    specialize (Hwf _ Hb). unfold cs_wf in Hwf. rewrite !andb_true_iff in Hwf.
-    destruct Hwf as [[[_ _] _] Hrows].
-    constructor.
-    + exact Hsh.
-    + apply Nat.ltb_lt. apply (Hz _ Hb).
-    + apply rows_ok_spec. exact Hrows.
-    + apply bytes_eqb_eq. apply (Hk _ Hb).
+    destruct (cs_wf_parts _ (Hwf _ Hb)) as (_ & _ & Hrows).
+    constructor; [exact Hsh|exact Hrows|]. apply bytes_eqb_eq. apply (Hk _ Hb).
+Qed.
+
+(** * type strings of a shape *)
+Fixpoint tstrs (ts : list Z) : Res (list string) :=
+  match ts with
+  | [] => Ok []
+  | t :: r => match typestr_of type_map t with
+              | None => Rejected
+              | Some s => do rest <- tstrs r; Ok (s :: rest)
+              end
+  end.
+
+Lemma typestrs_tstrs cs : typestrs cs = tstrs (map ctype cs).
+Proof. induction cs as [|c cr IH]; [reflexivity|]. cbn [typestrs map tstrs]. rewrite IH. reflexivity. Qed.
+
+Lemma shape_types cs : map snd (shape_of cs) = map ctype cs.
+Proof. unfold shape_of. rewrite map_map. reflexivity. Qed.
+
+Lemma tstrs_length ts l : tstrs ts = Ok l -> length l = length ts.
+Proof.
+  revert l; induction ts as [|t r IH]; intros l H; cbn [tstrs] in H; [inversion H; reflexivity|].
+  destruct (typestr_of type_map t); [|discriminate]. apply bind_ok in H as (rest & Hr & H).
+  inversion H; subst. cbn. rewrite (IH _ Hr). reflexivity.
+Qed.
+
+Lemma tstrs_inj a : forall b l, tstrs a = Ok l -> tstrs b = Ok l -> a = b.
+Proof.
+  induction a as [|t a IH]; intros b l Ha Hb; cbn [tstrs] in Ha.
+  - inversion Ha; subst. destruct b as [|u b]; [reflexivity|]. cbn [tstrs] in Hb.
+    destruct (typestr_of type_map u); [|discriminate]. apply bind_ok in Hb as (r & _ & Hb). discriminate.
+  - destruct (typestr_of type_map t) as [s|] eqn:Et; [|discriminate].
+    apply bind_ok in Ha as (ra & Hra & Ha). inversion Ha; subst.
+    destruct b as [|u b]; [cbn in Hb; discriminate|]. cbn [tstrs] in Hb.
+    destruct (typestr_of type_map u) as [s'|] eqn:Eu; [|discriminate].
+    apply bind_ok in Hb as (rb & Hrb & Hb). inversion Hb; subst.
+    destruct (typestr_facts _ _ Et) as [_ H1]. destruct (typestr_facts _ _ Eu) as [_ H2].
+    assert (t = u) by congruence. subst. f_equal. apply (IH _ _ Hra Hrb).
+Qed.
+
+Lemma types_match_refl l : types_match l l = true.
+Proof. induction l as [|s l IH]; [reflexivity|]. cbn. rewrite String.eqb_refl. exact IH. Qed.
+
+Lemma types_match_eq a : forall b, length a = length b -> types_match a b = true -> a = b.
+Proof.
+  induction a as [|s a IH]; intros [|u b] Hl H; cbn in *; try discriminate; [reflexivity|].
+  apply andb_prop in H as [H1 H2]. apply String.eqb_eq in H1. subst. f_equal. apply IH; [lia|exact H2].
 Qed.
 
 (** * the encoder's invariant *)
 Record Inv (sh : list (list byte * Z)) (w : wire) (done : list bucket) : Prop := {
   i_shapes : build_shapes w = Ok sh;
+  i_types : tstrs (map snd sh) = Ok (w_types w);
   i_names : w_names w = map fst sh;
   i_cols : col_lens_ok (w_length w) (w_data w) sh;
   i_lens : w_lens w = map (fun b => (fst b, cs_len (snd b))) done;
@@ -264,6 +314,7 @@ Proof.
   destruct (conv_cols_self cs (cs_len cs) (wb_len _ _ Hb)) as [Hl Hconv].
   constructor; unfold new_nmds; cbn [w_types w_names w_data w_length w_start w_lens fst snd].
   - unfold build_shapes. cbn [w_types w_names]. rewrite Hb'. cbn [bindR]. apply shape_vector_ok.
+  - rewrite shape_types, <- typestrs_tstrs. exact Hts.
   - symmetry. apply shape_names.
   - exact Hl.
   - reflexivity.
@@ -275,12 +326,12 @@ Lemma extract_keys sh data done st :
   map fst st = map fst done.
 Proof. induction 1 as [|b e ? ? [H _]]; cbn; congruence. Qed.
 
-(** one Append *)
+(** one Append of a bucket of the dataset's shape *)
 Lemma step_inv sh w done b :
   Inv sh w done -> wf_bucket sh b -> ~ In (fst b) (map fst done) ->
   exists w', fold_step (Some w) b = Ok (Some w') /\ Inv sh w' (done ++ [b]).
 Proof.
-  intros [Hsh Hn Hc Hl He] Hb Hfresh. destruct b as [k cs]. cbn [fst snd] in *.
+  intros [Hsh Hty Hn Hc Hl He] Hb Hfresh. destruct b as [k cs]. cbn [fst snd] in *.
   pose proof (wb_shape _ _ Hb) as Hshape. cbn [snd] in Hshape.
   destruct (zip_app_spec sh (w_data w) cs (w_length w) (cs_len cs) Hc Hshape (wb_len _ _ Hb))
     as (d' & Hz & Hl' & Hpres & Hnew).
@@ -290,10 +341,14 @@ Proof.
   cbn [negb].
   replace (names_match (w_names w) (map cname cs)) with (@Ok bool true).
   2:{ rewrite Hn, <- Hshape, shape_names, names_match_refl. reflexivity. }
-  cbn [bindR negb]. rewrite Hz. cbn [bindR]. eexists. split; [reflexivity|].
+  cbn [bindR negb].
+  replace (typestrs cs) with (@Ok (list string) (w_types w)).
+  2:{ rewrite typestrs_tstrs, <- shape_types, Hshape. symmetry. exact Hty. }
+  rewrite types_match_refl. cbn [negb]. rewrite Hz. cbn [bindR]. eexists. split; [reflexivity|].
   pose proof (extract_keys _ _ _ _ He) as Hkeys.
   constructor; cbn [w_types w_names w_data w_length w_start w_lens].
   - exact Hsh.
+  - exact Hty.
   - exact Hn.
   - exact Hl'.
   - rewrite Hl, map_app. cbn [map fst snd]. apply aset_fresh.
@@ -303,6 +358,28 @@ Proof.
     + eapply Forall2_imp; [|exact He]. intros b e [H1 H2]. split; [exact H1|].
       apply Hpres. exact H2.
     + constructor; [|constructor]. cbn [fst snd]. split; [reflexivity|]. exact Hnew.
+Qed.
+
+(** one Append of a bucket of ANOTHER shape: an error, whatever differs (column count, a name, a type) *)
+Lemma step_mismatch sh w done cs k :
+  Inv sh w done -> shape_of cs <> sh -> append_cs w cs k = Rejected.
+Proof.
+  intros [Hsh Hty Hn Hc Hl He] Hne. unfold append_cs.
+  destruct (length (w_data w) =? length cs) eqn:El; [|reflexivity]. cbn [negb].
+  apply Nat.eqb_eq in El. rewrite (Forall2_length' _ _ _ Hc) in El.
+  destruct (list_eq_dec (list_eq_dec Byte.byte_eq_dec) (map fst sh) (map cname cs)) as [Heq|Hneq].
+  - rewrite Hn, Heq, names_match_refl. cbn [bindR negb].
+    destruct (typestrs cs) as [ts| |] eqn:Et; try reflexivity.
+    destruct (types_match ts (w_types w)) eqn:Em; [|reflexivity]. exfalso. apply Hne.
+    rewrite typestrs_tstrs in Et.
+    assert (Hlen : length ts = length (w_types w)).
+    { rewrite (tstrs_length _ _ Et), (tstrs_length _ _ Hty), !map_length. lia. }
+    pose proof (types_match_eq _ _ Hlen Em) as ->.
+    pose proof (tstrs_inj _ _ _ Et Hty) as Htypes.
+    (* same names, same types: same shape *)
+    clear - Heq Htypes. revert sh Heq Htypes. induction cs as [|c cr IH]; intros [|[n t] sr] H1 H2; cbn in *; try discriminate; [reflexivity|].
+    inversion H1; inversion H2; subst. f_equal. apply IH; assumption.
+  - rewrite Hn, names_match_neq; [reflexivity| |exact Hneq]. rewrite !map_length. lia.
 Qed.
 
 Lemma fold_inv sh : forall rest w done,
@@ -332,6 +409,55 @@ Proof.
   split; [exact Hfold|]. split; [exact Hinv|]. split; assumption.
 Qed.
 
+(** * buckets of different shapes: the dataset is refused *)
+Lemma fold_app acc a b :
+  fold_buckets acc (a ++ b) = (do acc' <- fold_buckets acc a; fold_buckets acc' b).
+Proof.
+  revert acc; induction a as [|x a IH]; intros acc; cbn [app fold_buckets]; [reflexivity|].
+  destruct (fold_step acc x); cbn [bindR]; [apply IH|reflexivity|reflexivity].
+Qed.
+
+Lemma forallb_false_split {A} (p : A -> bool) l :
+  forallb p l = false -> exists pre x post, l = pre ++ x :: post /\ forallb p pre = true /\ p x = false.
+Proof.
+  induction l as [|x l IH]; cbn; [discriminate|]. destruct (p x) eqn:E; cbn.
+  - intros H. destruct (IH H) as (pre & y & post & -> & Hp & Hy).
+    exists (x :: pre), y, post. cbn. rewrite E, Hp. auto.
+  - intros _. exists [], x, l. auto.
+Qed.
+
+Theorem mixed_shapes_rejected : forall bs,
+  dom bs = true -> keys_canonical bs = true -> same_shapes bs = false -> encode bs = Rejected.
+Proof.
+  intros bs Hd Hk Hs. destruct bs as [|b0 rest]; [discriminate|]. cbn [same_shapes] in Hs.
+  destruct (forallb_false_split _ _ Hs) as (pre & x & post & Hrest & Hpre & Hx).
+  (* the prefix b0 :: pre is inside the guard *)
+  assert (Hg : guard (b0 :: pre) = true).
+  { unfold dom in Hd. rewrite !andb_true_iff in Hd. destruct Hd as [[_ Hnd] Hwf].
+    unfold guard, dom. rewrite Hrest in *. rewrite !andb_true_iff. repeat split.
+    - cbn [map] in *. clear - Hnd. revert Hnd. generalize (fst b0). intros k.
+      cbn [nodup_names]. rewrite !andb_true_iff. intros [H1 H2]. split.
+      + apply negb_true_iff. apply negb_true_iff in H1. rewrite map_app, existsb_app in H1.
+        apply orb_false_elim in H1 as [H1 _]. exact H1.
+      + clear H1. revert H2. induction pre as [|y pre IH]; cbn [map app nodup_names]; [reflexivity|].
+        rewrite !andb_true_iff. intros [H1 H2]. split; [|apply IH; exact H2].
+        apply negb_true_iff. apply negb_true_iff in H1. rewrite map_app, existsb_app in H1.
+        apply orb_false_elim in H1 as [H1 _]. exact H1.
+    - cbn [forallb] in *. rewrite forallb_app in Hwf. rewrite !andb_true_iff in Hwf. destruct Hwf as [H0 [H1 _]].
+      rewrite H0, H1. reflexivity.
+    - cbn [same_shapes]. exact Hpre.
+    - unfold keys_canonical in *. cbn [forallb] in *. rewrite forallb_app in Hk. rewrite !andb_true_iff in Hk.
+      destruct Hk as [H0 [H1 _]]. rewrite H0, H1. reflexivity. }
+  destruct (encode_inv _ (guard_spec _ Hg)) as (sh & w & Henc & Hinv & _ & Hwfb).
+  assert (Hsh : sh = shape_of (snd b0)).
+  { inversion Hwfb as [|? ? Hb _]; subst. symmetry. exact (wb_shape _ _ Hb). }
+  unfold encode in *. rewrite Hrest.
+  change (b0 :: pre ++ x :: post) with ((b0 :: pre) ++ x :: post). rewrite fold_app, Henc. cbn [bindR fold_buckets].
+  destruct x as [kx csx]. cbn [fold_step].
+  rewrite (step_mismatch sh w _ csx kx Hinv); [reflexivity|].
+  intros Heq. cbn [snd] in Hx. rewrite Heq, Hsh, shape_eqb_refl in Hx. discriminate.
+Qed.
+
 (** * what msgpack may do to the structure: the two maps come back in any order *)
 Record wire_equiv (w w' : wire) : Prop := {
   we_types : w_types w' = w_types w;
@@ -353,7 +479,6 @@ Section Decode.
   Hypothesis Hsh : wf_shape sh.
   Hypothesis Hwf : Forall (wf_bucket sh) bs.
   Hypothesis Hnd : NoDup (map fst bs).
-  Hypothesis Hne : bs <> [].
 
   (** the bucket a StartIndex entry denotes *)
   Definition entry_ok (e : key * nat) : Prop :=
@@ -405,33 +530,20 @@ Section Decode.
     rewrite (i_lens _ _ _ Hinv), map_map. cbn [fst]. exact Hnd.
   Qed.
 
+  (** every bucket has the (non-empty) shape, hence at least one column — also with zero rows *)
   Lemma cs_nonempty b : In b bs -> snd b <> [].
   Proof.
-    intros Hb. pose proof Hwf as Hwf'. rewrite Forall_forall in Hwf'. pose proof (wb_rows _ _ (Hwf' _ Hb)) as Hr.
-    destruct (snd b); [cbn in Hr; lia|discriminate].
+    intros Hb. pose proof Hwf as Hwf'. rewrite Forall_forall in Hwf'. pose proof (wb_shape _ _ (Hwf' _ Hb)) as Hs.
+    intros E. rewrite E in Hs. cbn in Hs. apply (ws_nonempty _ Hsh). symmetry. exact Hs.
   Qed.
 
   (** ToColumnSeries on the decoded structure is the column extraction *)
   Lemma to_cs_conv idx n : to_cs w' idx n = conv_cols sh (w_data w) idx n.
   Proof.
-    unfold to_cs. rewrite (we_data _ _ Heq).
-    destruct bs as [|b0 rest] eqn:Ebs; [contradiction|].
-    pose proof (i_extract _ _ _ Hinv) as He. inversion He as [|? e ? ? [_ Hconv] _]; subst.
-    assert (Hb0 : wf_bucket sh b0) by (inversion Hwf; assumption).
-    pose proof (wb_rows _ _ Hb0) as Hrows.
-    pose proof (i_cols _ _ _ Hinv) as Hc.
-    destruct sh as [|[nm t] sr] eqn:Esh; [exfalso; apply (ws_nonempty _ Hsh); reflexivity|].
-    inversion Hc as [|d s dr sr' Hd Hdr Hdata]; subst.
-    assert (Hpos : 0 < tsize t).
-    { pose proof (ws_supported _ Hsh) as Hs. inversion Hs; subst. apply wire_supported_size. assumption. }
-    cbn [conv_cols] in Hconv. rewrite <- Hdata in Hconv.
-    apply bind_ok in Hconv as (s & Hsl & _). apply slice_inv in Hsl as [Hle _].
-    destruct (length d =? 0) eqn:E0.
-    { apply Nat.eqb_eq in E0. rewrite E0 in Hle.
-      assert (0 < cs_len (snd b0) * tsize t) by (apply Nat.mul_pos_pos; assumption). lia. }
-    assert (Hbs : build_shapes w' = Ok ((nm, t) :: sr)).
+    unfold to_cs.
+    assert (Hbs : build_shapes w' = Ok sh).
     { unfold build_shapes. rewrite (we_types _ _ Heq), (we_names _ _ Heq). exact (i_shapes _ _ _ Hinv). }
-    rewrite Hbs. cbn [bindR]. rewrite Hdata. reflexivity.
+    rewrite Hbs, (we_data _ _ Heq). reflexivity.
   Qed.
 
   Lemma to_csm_loop_spec : forall es acc,
@@ -445,7 +557,6 @@ Section Decode.
       inversion Hnd' as [|? ? Hnot Hnd'']; subst.
       cbn [to_csm_loop]. rewrite (len_of_bucket b Hb).
       pose proof Hwf as Hwf'. rewrite Forall_forall in Hwf'. pose proof (Hwf' _ Hb) as Hwb.
-      replace (0 <? cs_len (snd b)) with true by (symmetry; apply Nat.ltb_lt; apply (wb_rows _ _ Hwb)).
       rewrite to_cs_conv, Hconv. cbn [bindR].
       rewrite (wb_key _ _ Hwb).
       assert (Hadd : add_cs acc (fst b) (snd b) = acc ++ [cs_of (fst b, idx)]).
@@ -514,7 +625,19 @@ Proof.
   destruct (encode_inv bs Hg) as (sh & w & Henc & Hinv & Hsh & Hwf).
   exists w. split; [exact Henc|]. intros w' Heq.
   destruct Hg as (b0 & rest & Hbs & Hnd & _).
-  apply (decode_both sh w w' bs Hinv Heq Hsh Hwf Hnd). rewrite Hbs. discriminate.
+  apply (decode_both sh w w' bs Hinv Heq Hsh Hwf Hnd).
+Qed.
+
+(** every bucket list of the property's domain with canonical keys: refused with an error, or round-trips *)
+Theorem wire_roundtrip_or_rejected : forall bs, dom bs = true -> keys_canonical bs = true ->
+  encode bs = Rejected
+  \/ exists w, encode bs = Ok (Some w)
+       /\ forall w', wire_equiv w w' ->
+          exists m1 m2, to_csm w' = Ok m1 /\ Permutation m1 bs /\ resp_to_csm w' = Ok m2 /\ Permutation m2 bs.
+Proof.
+  intros bs Hd Hk. destruct (same_shapes bs) eqn:Es.
+  - right. apply wire_roundtrip. unfold guard. rewrite Hd, Es, Hk. reflexivity.
+  - left. apply mixed_shapes_rejected; assumption.
 Qed.
 
 (** through any codec that returns the structure up to the order of its two maps *)
